@@ -93,6 +93,7 @@ static void verif_concrete_setup(int argc, char** argv)
 void verif_assert_concrete(int c, const char* msg)
 {
     verif_event('a', (uint64_t) (c != 0));
+    if (vc_trace) fprintf(stderr, "   assert: %s\n", msg);
     if (!c) verif_concrete_finish("FAIL", msg);
 }
 void verif_assume_concrete(int c)
